@@ -314,10 +314,52 @@ pub fn run(ctx: &mut Ctx) -> (&'static str, String, bool) {
             ctx.merge(p);
         }
     }
+    // ---- connections made by Builder::tcp over loopback: replies as the peer sees them --------------------------
+    if !miri {
+        use crate::realconn::builder_tcp_session;
+        let n = ctx.tier.pick(8u64, 80u64);
+        let base = base_rng.fork(7007);
+        let parts: Vec<(Part, Option<String>)> = (0..n)
+            .into_par_iter()
+            .map(|i| {
+                let mut p = Part::new();
+                let mut r = base.fork(i);
+                let which = if i % 2 == 0 { Impl::Blocking } else { Impl::Tokio };
+                let compressed = (i / 2) % 2 == 0;
+                let target = 300 + r.usize_below(8000);
+                let stream = super::c05::make_stream(c, &mut r, compressed, target, i % 3 == 0);
+                match builder_tcp_session(c, &mut r, which, compressed, stream, 0) {
+                    Ok(o) => {
+                        p.evaluations += 1;
+                        p.distinct(&(which.name(), &o.stream));
+                        p.count("builder_tcp_sessions", 1);
+                        p.count("builder_tcp_keepalives", o.keepalives as u64);
+                        let reply = reply_frame(compressed);
+                        let ok = o.outgoing.len() == 4 * o.keepalives && o.outgoing.chunks(4).all(|c| c == reply);
+                        if !ok {
+                            p.violation(
+                                format!("C07/{}/builder-tcp/replies-differ", which.name()),
+                                format!("{}: {} keep-alives in the stream; the peer received {} bytes: {}", o.label, o.keepalives, o.outgoing.len(), hex(&o.outgoing[..o.outgoing.len().min(48)])),
+                                json!({"label": o.label, "keepalives": o.keepalives, "outgoing": hex(&o.outgoing[..o.outgoing.len().min(512)]), "stream_head": hex(&o.stream[..o.stream.len().min(256)])}),
+                            );
+                        }
+                        (p, None)
+                    },
+                    Err(e) => (p, Some(e)),
+                }
+            })
+            .collect();
+        for (p, e) in parts {
+            ctx.merge(p);
+            if let Some(e) = e {
+                ctx.inconclusive(format!("builder TCP session could not be judged: {e}"));
+            }
+        }
+    }
     ctx.assume("a keep-alive is the 4-byte frame type 3, ReqI 0, SubT 0; the reply is observed as bytes accepted by the scripted transport between two consecutive read returns");
     (
         "exploration",
-        "every TINY sub-type byte 0..255 x ReqI 0..255 as a history ping/X/ping (exhaustive) x {blocking,tokio} x both modes with the reply written in 1- and 2-byte pieces; random histories of 1..200 frames mixing keep-alives, near-misses and every other kind under hostile read segmentation, short/Pending writes and verify_version on/off; every kind directly before/after keep-alives; tokio: short keep-alive histories with the read future dropped after every single poll and after all Pending polls while the reply is written in pieces; distinct = distinct histories".into(),
+        "every TINY sub-type byte 0..255 x ReqI 0..255 as a history ping/X/ping (exhaustive) x {blocking,tokio} x both modes with the reply written in 1- and 2-byte pieces; random histories of 1..200 frames mixing keep-alives, near-misses and every other kind under hostile read segmentation, short/Pending writes and verify_version on/off; every kind directly before/after keep-alives; tokio: short keep-alive histories with the read future dropped after every single poll and after all Pending polls while the reply is written in pieces; connections made by Builder::tcp over loopback with the replies collected by the peer; distinct = distinct histories".into(),
         true,
     )
 }
